@@ -127,6 +127,46 @@ def setup(fn, mod=None, exclude=()):
     return ex, args
 
 
+def _tie_equalities(val):
+    """expressions e with e = 0 implied by the truth assignment: `e < 0` false with `e <= 0` true; `e < 0` and `-e < 0` both
+    false; `e <= 0` and `-e <= 0` both true; `e == 0` true"""
+    out = []
+    items = list(val.items())
+    by = {}
+    for (k, e), v in items:
+        by.setdefault(e, {})[k] = v
+    for e, d in by.items():
+        if (d.get("lt") is False and d.get("le") is True) or d.get("eq") is True:
+            out.append(e)
+    for a_ in range(len(items)):
+        for b_ in range(a_ + 1, len(items)):
+            (k1, e1), v1 = items[a_]
+            (k2, e2), v2 = items[b_]
+            if k1 == k2 and k1 in ("lt", "le") and v1 == v2 and v1 == (k1 == "le") and _same_rational(e1, -e2):
+                out.append(e1)
+    return out
+
+
+def _apply_equality(a, b, e):
+    """the pairs (a, b) rewritten with e = 0 solved for one of its generators (a symbol or an applied function in which e
+    is linear with a numeric coefficient)"""
+    try:
+        e = sp.expand(e)
+    except Exception:
+        return
+    gens = sorted({g for g in e.atoms(Symbol, AppliedUndef, sp.Abs, Wrap)}, key=str)
+    for g in gens:
+        try:
+            c = e.coeff(g)
+            rest = sp.expand(e - c * g)
+            if c == 0 or not c.is_number or rest.has(g):
+                continue
+            sol = -rest / c
+            yield a.xreplace({g: sol}), b.xreplace({g: sol})
+        except Exception:
+            continue
+
+
 def _boundary_tie(val):
     """the truth assignment puts a foot EXACTLY on the radial boundary: for one expression e that contains r_0 or r_max both
     `e < 0` is false and `e <= 0` is true.  The property compares only at nodes "whose foot is not within rounding distance
@@ -331,6 +371,19 @@ def layered_equal(a, b, max_atoms=14):
         if not ites:
             if alg_equal(a, b):
                 return True, None
+            # AUDIT: a case may put two compared quantities in a TIE (`x > y` false and `y > x` false, or `e < 0` false and
+            # `e <= 0` true): then x = y holds in that case, and `max(x, y)` written as `x if x > y else y` and as `y if y > x
+            # else x` select different but EQUAL operands.  The equalities the case implies are applied before the two sides
+            # are declared different.
+            for eq_ in _tie_equalities(val):
+                try:
+                    if alg_equal(a - b, eq_) or alg_equal(a - b, -eq_):       # the two sides differ by exactly the quantity
+                        return True, None                                        # that is zero in this case
+                except Exception:
+                    pass
+                for a2, b2 in _apply_equality(sp.expand(a), sp.expand(b), eq_):
+                    if alg_equal(a2, b2):
+                        return True, None
             return False, {"case": {f"{k}:{e}": v for (k, e), v in val.items()}, "code": str(a)[:300], "spec": str(b)[:300]}
         ready = [t for t in ites if not t.args[0].has(ITE)]
         if not ready:
